@@ -118,6 +118,9 @@ class Filler:
     at every 'any' slot (C04/C06/C16-style), mode 'mixed' alternates identifiers and small numbers."""
     NUMS = ["11.3", "12.7", "13.9", "14.6", "15.2", "16.8", "17.4", "18.1", "19.5", "21.7", "22.9", "23.6"]
     IDS = ["x", "y", "z", "k", "n", "p", "q", "u", "v", "w", "b", "c"]
+    # integer literals (mode 'int'): together they use every digit in every place; some codes treat integers differently from decimals
+    # (lowered digits in simple fractions, ordinals, numeric subscripts without indicator)
+    INTS = ["18", "27", "36", "45", "90", "108", "72", "63", "54", "81", "209", "360"]
 
     def __init__(self, mode="mixed", mark="."):
         self.mode = mode
@@ -131,6 +134,11 @@ class Filler:
             s = self.IDS[self.i % len(self.IDS)]
             self.i += 1
             return mi(s)
+        if self.mode == "int":
+            s = self.INTS[self.n % len(self.INTS)]
+            self.n += 1
+            self.planted.append(s)
+            return mn(s)
         if self.mode == "num":
             s = self.NUMS[self.n % len(self.NUMS)].replace(".", self.mark)
             self.n += 1
@@ -138,6 +146,26 @@ class Filler:
             return mn(s)
         s = str(2 + self.n % 7)
         self.n += 1
+        return mn(s)
+
+
+class DigitFiller(Filler):
+    """'int' filler in which the k-th numeric slot gets a literal starting with digit d (three consecutive digits) and the other slots
+    get repdigits - so that every digit can be put into every operand slot of every construct"""
+
+    def __init__(self, k, d):
+        Filler.__init__(self, "int")
+        self.k, self.d = k, d
+
+    def atom(self, kind):
+        if kind == "id":
+            return Filler.atom(self, kind)
+        if self.n == self.k:
+            s = "".join(str((self.d + j) % 10) for j in range(3))
+        else:
+            s = str(1 + self.n % 9) * 2
+        self.n += 1
+        self.planted.append(s)
         return mn(s)
 
 
